@@ -38,7 +38,7 @@ def pairs_expected(mode, L1, L2, d):
     if mode == 'two': return [(i, j) for i in range(L1) for j in range(L2)]
     if mode == 'same': return [(i, i) for i in range(L1)]
 
-def combination(u, rep, opname, mode, f1, f2, d, dtype, timeout, W=8):
+def combination(u, rep, opname, mode, f1, f2, d, dtype, timeout, W=8, warm=None):
     cls = getattr(u.hs, opname)
     fn = HB + '::' + {'one': '_CombinationOfTwoFrames.__call__', 'two': '_CombinationOfTwoFrames.__call__', 'distance': '_CombinationFrameOnDistance.__call__', 'same': '_CombinationPointToPoint.__call__'}[mode]
     def cols(fr):
@@ -57,9 +57,12 @@ def combination(u, rep, opname, mode, f1, f2, d, dtype, timeout, W=8):
         if opname == 'CenteredProduct':
             mean = H.sym_reals('MU', (W,), 'float64'); kw['mean'] = mean
         pre = symnp.ndarray.fresh(X.shape, X.snapshot(), X.dtype)
-        return N, X, pre, mean, cls(**kw)(X)
-    tag = '%s,%s,f1=%s,f2=%s,d=%s,%s' % (opname, mode, f1, f2, d, dtype)
-    case = dict(kind='comb', op=opname, mode=mode, f1=str(f1), f2=str(f2), d=d, dtype=dtype)
+        obj = cls(**kw)
+        if warm is not None:      # history: the same object has already processed a matrix of another width (another container / frame)
+            obj(inp('X0', core.sym_int('N0', 1), warm, dtype))
+        return N, X, pre, mean, obj(X)
+    tag = '%s,%s,f1=%s,f2=%s,d=%s,%s%s' % (opname, mode, f1, f2, d, dtype, '' if warm is None else ', after a call on %d samples' % warm)
+    case = dict(kind='comb', op=opname, mode=mode, f1=str(f1), f2=str(f2), d=d, dtype=dtype, warm=warm)
     for p, outc, exc in core.explore(body):
         if exc is not None:
             rep.obligation('post[%s]' % tag, fn, 'post', dict(result='sat', backend='exec', secs=0), sample=repr(exc)); rep.violation('post[%s]' % tag, fn, 'raises %r' % (exc,), case, None, *native(case)); continue
@@ -170,10 +173,13 @@ def main():
         units.append(('comb', 'Product', 'one', slice(0, Lf), None, None, 'int16'))
         for d in (1, 2, Lf, Lf + 1, Lf + 3): units.append(('comb', 'Difference', 'distance', slice(0, Lf), None, d, 'float32'))
         units.append(('comb', 'CenteredProduct', 'two', slice(0, Lf), slice(8 - Lf, 8), None, 'uint8'))
-    units += [('comb', 'Product', 'one', Ellipsis, None, None, 'float32'), ('comb', 'AbsoluteDifference', 'one', [5, 1, 1], None, None, 'int8'), ('comb', 'Product', 'one', 3, None, None, 'float64'), ('comb', 'CenteredProduct', 'same', slice(0, 3), slice(4, 7), None, 'int32'),
+    units += [('comb', 'Difference', 'two', slice(1, 4), slice(1, 4), None, 'float32'), ('comb', 'Product', 'two', [2, 5], [2, 5], None, 'int16'), ('comb', 'AbsoluteDifference', 'two', slice(0, 3), [0, 1, 2], None, 'uint8'),      # frame_2 given explicitly and equal to frame_1: still frame x frame
+              ('combh', 'Difference', 'distance', Ellipsis, None, 2, 'float32', 10), ('combh', 'Product', 'distance', Ellipsis, None, 3, 'int16', 5), ('combh', 'AbsoluteDifference', 'one', Ellipsis, None, None, 'float32', 11), ('combh', 'Product', 'two', Ellipsis, Ellipsis, None, 'uint8', 6), ('combh', 'CenteredProduct', 'same', slice(0, 3), slice(4, 7), None, 'int32', 8),
+              ('comb', 'Product', 'one', Ellipsis, None, None, 'float32'), ('comb', 'AbsoluteDifference', 'one', [5, 1, 1], None, None, 'int8'), ('comb', 'Product', 'one', 3, None, None, 'float64'), ('comb', 'CenteredProduct', 'same', slice(0, 3), slice(4, 7), None, 'int32'),
               ('first', 'StandardizeOn', 'float32'), ('first', 'StandardizeOn', 'int16'), ('first', 'standardize', 'float64'), ('first', 'CenterOnNone', 'uint8'), ('first', 'serialize_bit', 'uint8'), ('first', 'serialize_bit', 'int16'), ('first', 'ToPower2', 'uint16')]
     def work(sub, kind, *args):
         if kind == 'comb': combination(u, sub, *args, timeout)
+        elif kind == 'combh': combination(u, sub, *args[:-1], timeout, warm=args[-1])
         elif kind == 'first': first_order(u, sub, args[0], args[1], timeout)
     groups = [tuple(units[i:i + 4]) for i in range(0, len(units), 4)]
     def wg(sub, *g):
